@@ -69,6 +69,14 @@ func (C06) Gen(r *simrt.RNG, tier string) core.Case {
 			w.Parties[pi].InForm = world.FormPtrPtrStruct
 		}
 	}
+	// a concrete type that implements error as the last ordinary result
+	if r.Chance(1, 15) {
+		pi := r.Intn(len(w.Parties))
+		if p := &w.Parties[pi]; p.OutForm == world.FormPositional && p.InForm != world.FormBuilt && len(p.Out) > 0 {
+			p.HasErr = false
+			p.Out = append(append([]world.Slot{}, p.Out...), world.Slot{Label: world.Label{Type: world.ErrImpl}})
+		}
+	}
 	// malformed options
 	if r.Chance(1, 6) {
 		kinds := []string{world.ArgNilOpt, world.ArgNilValue, world.ArgNonFunc, world.ArgNilFunc, world.ArgNilConv}
